@@ -27,9 +27,9 @@ RULE = ("case = one object of a public class with get_config built from per-clas
         "single-tuple trusts, per-dimension regularizer amounts, ndarray keypoints, missing output values, ...), or one premade model saved and reloaded "
         "(formats .keras / .h5 / SavedModel / weights) at a training step; non-trivial = every case; distinct by digest of (class, arguments) or (model, format, step)")
 MIN_EVENTS = {
-    "quick": {"from_config/succeeds": 130, "get_config/second-generation-equal": 130, "from_config/constructor-arguments-preserved": 130,
+    "quick": {"layer/built-config-round-trip": 30, "json-round-trip/same-behaviour": 120, "from_config/succeeds": 130, "get_config/second-generation-equal": 130, "from_config/constructor-arguments-preserved": 130,
               "layer/same-variables-and-outputs": 30, "model/save-load-same-outputs": 10, "model/reloaded-keeps-constraints": 8},
-    "thorough": {"from_config/succeeds": 10000, "get_config/second-generation-equal": 10000, "from_config/constructor-arguments-preserved": 10000,
+    "thorough": {"layer/built-config-round-trip": 720, "json-round-trip/same-behaviour": 2880, "from_config/succeeds": 10000, "get_config/second-generation-equal": 10000, "from_config/constructor-arguments-preserved": 10000,
                  "layer/same-variables-and-outputs": 3500, "model/save-load-same-outputs": 300, "model/reloaded-keeps-constraints": 300},
 }
 ASSUMPTIONS = [
